@@ -264,4 +264,67 @@ theorem agree_of_fresh (t : Tree) (f : File) (h : ∀ i u, t.unflushed[i]? = som
 example (f : File) : CacheInv (fun _ => none) f := fun _ _ h => by cases h
 example (t : Tree) (f : File) : Agree { t with unflushed := {} } f := fun i u n hu _ => by simp at hu
 
+/-! ## … for every history of cache and tree-store events -/
+/-- cache, tree (its unflushed map) and tree store -/
+abbrev CState := (Nat → Option Node) × Tree × File
+
+/-- what can happen to them: a node read from the store is cached; entries are evicted (any policy); a commit adds
+    an unflushed node that agrees with the store; `flush_nodes` writes the unflushed nodes and empties the map -/
+inductive CStep : CState → CState → Prop
+  | fill (c : Nat → Option Node) (t : Tree) (f : File) (j : Nat) (n : Node) :
+      storeNode f j = some n → CStep (c, t, f) ((fun k => if k = j then some n else c k), t, f)
+  | evict (c c' : Nat → Option Node) (t : Tree) (f : File) :
+      (∀ i n, c' i = some n → c i = some n) → CStep (c, t, f) (c', t, f)
+  | insert (c : Nat → Option Node) (t : Tree) (f : File) (n : Node) :
+      (∀ m, storeNode f n.index = some m → n = m) → n.hash.length = 32 → n.length < 2 ^ 64 → CStep (c, t, f) (c, t.addNode n, f)
+  | flush (c : Nat → Option Node) (t : Tree) (f : File) :
+      CStep (c, t, f) (c, t.flush.1, t.flush.2.foldl (fun f op => op.onFile f) f)
+
+inductive CReach : CState → CState → Prop
+  | refl (s : CState) : CReach s s
+  | step (s s' s'' : CState) : CReach s s' → CStep s' s'' → CReach s s''
+
+def CInv (s : CState) : Prop := CacheInv s.1 s.2.2 ∧ Agree s.2.1 s.2.2 ∧ TreeStore.MapWF s.2.1.unflushed ∧ s.2.2.size % 40 = 0
+
+theorem cstep_inv (s s' : CState) (h : CInv s) (st : CStep s s') : CInv s' := by
+  cases st with
+  | fill c t f j n hn => exact ⟨cache_inv_fill c f h.1 j n hn, h.2.1, h.2.2.1, h.2.2.2⟩
+  | evict c c' t f hsub => exact ⟨cache_inv_evict c c' f h.1 hsub, h.2.1, h.2.2.1, h.2.2.2⟩
+  | insert c t f n hn h32 hlen =>
+    refine ⟨h.1, cache_inv_insert t f h.2.1 n hn, ?_, h.2.2.2⟩
+    intro k m hk
+    simp only [Tree.addNode, Std.HashMap.getElem?_insert] at hk
+    split at hk
+    · rename_i e
+      have e' : n.index = k := by simpa using e
+      cases hk
+      exact ⟨e', h32, hlen⟩
+    · exact h.2.2.1 k m hk
+  | flush c t f =>
+    obtain ⟨L, h1, h2, h3, h4⟩ := cache_inv_flush c t f h.2.2.1 h.2.2.2 h.1 h.2.1
+    have e : t.flush.2.foldl (fun f op => op.onFile f) f = TreeStore.writeSlots f L := by
+      rw [h1]
+      simp only [List.foldl_map, TreeStore.writeSlots]
+      rfl
+    have e1 : t.flush.1 = { t with unflushed := {} } := by rw [h1]
+    show CacheInv c _ ∧ Agree _ _ ∧ TreeStore.MapWF _ ∧ _
+    rw [e, e1]
+    refine ⟨h2, h3, ?_, h4⟩
+    intro k m hk
+    simp at hk
+
+/-- **along every history of fills, evictions, agreeing commits and flushes the cache is invisible**: every lookup
+    through the cache (consulted first) answers as the lookup without it -/
+theorem cache_invisible_along (s s' : CState) (h : CInv s) (r : CReach s s') (i : Nat) :
+    nodeWithCache s'.1 s'.2.1 s'.2.2 i = s'.2.1.node? s'.2.2 i := by
+  have hinv : CInv s' := by
+    induction r with
+    | refl => exact h
+    | step s1 s2 _ st ih => exact cstep_inv _ _ ih st
+  exact cache_inv_transparent _ _ _ hinv.1 hinv.2.1 i
+
+/-- non-vacuity: an opened tree (nothing unflushed) over an aligned store with the empty cache -/
+example (t : Tree) (f : File) (hal : f.size % 40 = 0) : CInv ((fun _ => none), { t with unflushed := {} }, f) :=
+  ⟨fun _ _ h => (by cases h), fun i u n hu _ => (by simp at hu), fun k m hk => (by simp at hk), hal⟩
+
 end HC.C14
